@@ -276,7 +276,10 @@ def _copy_installed_folder_to_cache(cache_folder, sub_folder=""):
         cache_name = os.path.join(cache_folder, basename)
         install_name = os.path.join(source_folder, basename)
         if not os.path.isdir(install_name) and not os.path.exists(cache_name):
-            shutil.copy(install_name, cache_name)
+            # Copy under a temporary name and rename, so a partly copied file never carries the name of a schema
+            temp_name = f"{cache_name}.{os.getpid()}.tmp"
+            shutil.copy(install_name, temp_name)
+            os.replace(temp_name, cache_name)
 
 
 def _check_if_url(hed_xml_or_url):
